@@ -159,7 +159,7 @@ func cmpDoc(n *jnode, v *lisp.LVal, sn, ei bool, path string) string {
 			return fmt.Sprintf("%s: vector of %d want %d", path, len(cells), len(n.arr))
 		}
 		for i := range cells {
-			if d := cmpDoc(n.arr[i], cells[i], sn, ei, fmt.Sprintf("%s[%d]", path, i)); d != "" {
+			if d := cmpDoc(n.arr[i], cells[i], sn, ei, pIdx(path, i)); d != "" {
 				return d
 			}
 		}
@@ -179,7 +179,7 @@ func cmpDoc(n *jnode, v *lisp.LVal, sn, ei bool, path string) string {
 			if len(p.Cells) != 2 || p.Cells[0].Type != lisp.LString || p.Cells[0].Str != keys[i] {
 				return fmt.Sprintf("%s: entry %d has key %s want %q", path, i, describe(p.Cells[0]), keys[i])
 			}
-			if d := cmpDoc(vals[i], p.Cells[1], sn, ei, fmt.Sprintf("%s{%q}", path, keys[i])); d != "" {
+			if d := cmpDoc(vals[i], p.Cells[1], sn, ei, pKey(path, keys[i])); d != "" {
 				return d
 			}
 		}
@@ -229,7 +229,7 @@ func cmpRedump(n, r *jnode, sn, ei bool, path string) string {
 			return fmt.Sprintf("%s: array of %d re-dumped as %v of %d", path, len(n.arr), r.kind, len(r.arr))
 		}
 		for i := range n.arr {
-			if d := cmpRedump(n.arr[i], r.arr[i], sn, ei, fmt.Sprintf("%s[%d]", path, i)); d != "" {
+			if d := cmpRedump(n.arr[i], r.arr[i], sn, ei, pIdx(path, i)); d != "" {
 				return d
 			}
 		}
@@ -244,7 +244,7 @@ func cmpRedump(n, r *jnode, sn, ei bool, path string) string {
 			if r.keys[i] != keys[i] {
 				return fmt.Sprintf("%s: re-dumped member %d has key %q want %q (all: %q)", path, i, r.keys[i], keys[i], r.keys)
 			}
-			if d := cmpRedump(vals[i], r.vals[i], sn, ei, fmt.Sprintf("%s{%q}", path, keys[i])); d != "" {
+			if d := cmpRedump(vals[i], r.vals[i], sn, ei, pKey(path, keys[i])); d != "" {
 				return d
 			}
 		}
@@ -313,6 +313,24 @@ func checkDoc(dc DocCase, ctx *vcommon.Ctx) *vcommon.Failure {
 
 	// ----- valid JSON text -----
 	c.Class("ref-valid")
+	if info.depth >= 1000 {
+		c.Class("depth>=1000")
+	}
+	if info.depth >= decoderMaxDepth-10 && info.depth <= decoderMaxDepth {
+		c.Class("depth within 10 of the decoder's nesting limit (10000)")
+	}
+	if info.depth > decoderMaxDepth {
+		// documented limit of the decoder: refusal is not judged, but both
+		// entry points must refuse alike; acceptance is judged as usual
+		c.Class("limit_zone/document nested deeper than the decoder's limit (10000)")
+		if r.err || r2.err {
+			if r.err != r2.err {
+				return vcommon.Failf("load/string-vs-bytes", "%s: load-string and load-bytes disagree on a document nested %d levels deep: %s vs %s", mode, info.depth, resultKey(r), resultKey(r2))
+			}
+			c.Class("limit_zone/refused")
+			return nil
+		}
+	}
 	if info.invalidUTF8 > 0 {
 		c.Class("lenient_zone/invalid-utf8")
 	}
@@ -390,6 +408,13 @@ func checkDoc(dc DocCase, ctx *vcommon.Ctx) *vcommon.Failure {
 	c.Class("accepted")
 	if p.rangeEff {
 		return vcommon.Failf("load/range-error-missing", "%s: %q holds an integer literal that does not fit an int and is not canonical float text, yet it loads as %s", mode, dc.Doc, describe(r.v))
+	}
+	if info.depth > 150 {
+		// resultKey only renders the top 200 levels: compare the other entry
+		// point's value in full as well
+		if d := cmpDoc(n, r2.v, dc.SN, dc.EI, "$"); d != "" {
+			return vcommon.Failf("load/string-vs-bytes", "%s: the second entry point's value for the deep document differs from the reference: %s", mode, d)
+		}
 	}
 	if d := cmpDoc(n, r.v, dc.SN, dc.EI, "$"); d != "" {
 		key := "load/structure"
